@@ -265,3 +265,85 @@ def check_deferred_flush(ck, prog, config, clause, units=('src/zck.c',)):
                           'such a partial match loses its last %s byte(s), and the tool still exits 0' % (
                               callee_name(c), show(la), v, v), c.file, c.line, config=config)
     return n
+
+
+def check_carried_bound(ck, prog, config, clause, units=('src/zck.c',)):
+    """A write inside a read loop whose length L subtracts a carried counter V (declared outside the loop: it can
+    count bytes held back from *earlier* blocks) from per-block quantities P needs, on the way to the call, a test
+    that implies P - V >= 0 (or L >= 0): otherwise a block shorter than what is held back makes the length negative,
+    and the size_t conversion turns it into a huge write (the scanner's end-of-block flush when the input ends
+    inside a split string that began in the previous block).  Decided per call from the conditions of the enclosing
+    `if`s (then-branches) as linear constraints, unique definitions of locals substituted, by Fourier-Motzkin."""
+    from ..program import unique_defs
+    from .bounds import cons_of
+    n = 0
+    for fn in sorted(prog.funcs.values(), key=lambda f: f.qname):
+        if not any(fn.unit.endswith(u) for u in units):
+            continue
+        names = dict((v.op, v) for v in fn.locals.values())
+        subst = unique_defs(fn)
+
+        def visit(stmts, loop, conds, out):
+            for x in (stmts if isinstance(stmts, list) else [stmts]):
+                if x is None:
+                    continue
+                if x.k == 'compound':
+                    visit(x.body, loop, conds, out)
+                elif x.k in ('while', 'for', 'do'):
+                    visit(x.body, loop if loop is not None else x, conds if loop is not None else [], out)
+                elif x.k == 'if':
+                    g = strip(x.e)
+                    tc = []
+                    if g is not None and g.k == 'bin' and g.op in ('<', '<=', '>', '>=', '=='):
+                        tc = [(g.op, g.a[0], g.a[1])]
+                    visit(x.then, loop, conds + tc, out)
+                    if x.els is not None:
+                        ec = [(negate(g.op), g.a[0], g.a[1])] if tc and g.op != '==' else []
+                        visit(x.els, loop, conds + ec, out)
+                elif x.k == 'expr' and x.e is not None and loop is not None:
+                    c = strip(x.e)
+                    if c.k == 'call' and callee_name(c) in WRITE_LIKE:
+                        out.append((c, loop, list(conds)))
+        sites = []
+        visit(fn.body, None, [], sites)
+        for c, loop, conds in sites:
+            la = length_arg(c)
+            L = lin(la, subst) if la is not None else None
+            if L is None:
+                continue
+            carried = []
+            for v, coef in L.t.items():
+                if coef >= 0 or v not in names:
+                    continue
+                decl_in_loop = any(y.k == 'decl' and y.var is not None and y.var.op == v for y in walk_stmts(loop.body))
+                assigned = False
+                for y in walk_stmts(loop.body):
+                    e = getattr(y, 'e', None)
+                    if e is None:
+                        continue
+                    for z in walk(e):
+                        if ((z.k == 'bin' and z.op.endswith('=') and z.op not in ('==', '!=', '<=', '>=')) or
+                                (z.k == 'un' and z.op in ('++', '--'))) and strip(z.a[0]).k == 'var' and strip(z.a[0]).op == v:
+                            assigned = True
+                if not decl_in_loop and assigned:
+                    carried.append(v)
+            for v in carried:
+                n += 1
+                P = Lin(dict((k, cf) for k, cf in L.t.items() if cf > 0), max(L.c, 0))
+                cons = []
+                for op, a, b in conds:
+                    lv, rv = lin(a, subst), lin(b, subst)
+                    if lv is not None and rv is not None:
+                        cons += cons_of(op, lv, rv)
+                # violated if  V - P >= 1  is possible under the enclosing conditions
+                w = fm_feasible(cons + [Lin({v: 1}) - P - Lin(None, 1)] + [Lin({k: 1}) for k in set(P.t) | set([v])])
+                ok = w is None
+                ck.ob(clause, 'R4.carried-bound', fn.name, 'carried:%s@%s' % (v, show(la)[:30]), ok,
+                      '%s(.., %s): the enclosing conditions imply %s <= %r' % (callee_name(c), show(la), v, P) if ok else
+                      '%s(.., %s) subtracts the carried counter %s (it also counts bytes held back from earlier blocks) '
+                      'from %r without a test that %s <= %r: when the block is shorter than what is held back the length '
+                      'is negative and is converted to a huge size_t (e.g. %s) - the tool crashes on an input that ends '
+                      'inside a split string begun in the previous block' % (
+                          callee_name(c), show(la), v, P, v, P,
+                          ', '.join('%s=%s' % kv for kv in sorted(w.items()))), c.file, c.line, config=config)
+    return n
